@@ -41,6 +41,13 @@ def run(tier):
     front = [f for f in fx.fns.values() if f.file.endswith(FRONT) or f.file.startswith(COMPILER)]
     ck.anchor(len(front) > 400, "front-end functions (%d)" % len(front))
 
+    # ---------------- R1b index expressions (zero-expected; shared with C06 R5c; fixture controls)
+    import indexpanic
+    front_files = {g.file for g in front}
+    indexpanic.rule(fx, ck, "R1b.index-panics", lambda g: g.file in front_files, "a source text must not abort the host")
+    cf = indexpanic.control(F.load_fixture())
+    if cf:
+        ck.closed_fail.append(cf)
     # ---------------- R1
     ck.rule("R1.panic-sources", "no explicit panic entry point and no unsafe narrow arithmetic in lexer / parser / compiler", floor=300)
     for f in front:
